@@ -17,29 +17,52 @@ pub fn vx_builtin_run(sh: &mut Shell, cl: &CommandLine, cmd: &Command, capture: 
     ensures final(lg).flags == old(lg).flags.push(capture)
 { unimplemented!() }
 
+impl CommandResult {
+//@FN CommandResult::error
+}
+// opening a redirection target (tools::create_raw_fd_from_file): whether it can be opened is the file system's answer
+pub uninterp spec fn spec_openable(name: Seq<char>) -> bool;
+#[verifier::external_body]
+pub fn create_raw_fd_from_file(file_name: &str, append: bool) -> (r: Result<i32, String>)
+    ensures match r { Ok(_) => spec_openable(file_name@), Err(_) => !spec_openable(file_name@) }
+{ unimplemented!() }
+#[verifier::external_body]
+pub fn close(fd: i32) -> (r: i32) { unimplemented!() }
+pub open spec fn file_target(t: Redirection) -> bool { !(t.2@.len() > 0 && t.2@[0] == '&') }
+pub open spec fn all_openable(v: Seq<Redirection>, upto: int) -> bool { forall|i: int| 0 <= i < upto && file_target(#[trigger] v[i]) ==> spec_openable(v[i].2@) }
+
 //@FN try_run_builtin
 //@FN try_run_builtin_in_subprocess
 ''' + common.TAIL
 
 RW = [Rw(r'builtins::\w+::run\(', 'vx_builtin_run(', regex=True, count=0, rule='R0',
-         why='every builtins::<name>::run call goes to one external function that logs the capture flag it was given')]
+         why='every builtins::<name>::run call goes to one external function that logs the capture flag it was given'),
+      Rw('tools::create_raw_fd_from_file(', 'create_raw_fd_from_file(', required=False, rule='R0'),
+      Rw(r'\bunsafe\s*\{', '{', regex=True, required=False, rule='R14'),
+      Rw('libc::close(', 'close(', required=False, rule='R8')]
 LAST = '(capture && idx_cmd + 1 == cl.commands@.len())'
 try_run_builtin = Fn('src/core.rs', 'try_run_builtin', ret='r', pre_rewrites=RW,
     add_params='Tracked(lg): Tracked<&mut BuiltinLog>', ghost_args={'vx_builtin_run': 'Tracked(lg)'},
     requires=[('C05.pre.blt.stage_has_a_word', 'idx_cmd < usize::MAX && forall|i: int| 0 <= i < cl.commands@.len() ==> (#[trigger] cl.commands@[i]).tokens@.len() > 0')],
     ensures=[
         ('C02+C11.blt.only_the_last_stage_of_a_captured_pipeline_captures',
-         '(final(lg).flags == old(lg).flags && r.is_none()) || (final(lg).flags == old(lg).flags.push(' + LAST + ') && r.is_some())'),
-    ])
+         '(final(lg).flags == old(lg).flags) || (final(lg).flags == old(lg).flags.push(' + LAST + ') && r.is_some())'),
+        # C04 for builtins: a target that cannot be opened fails the command with a non-zero status instead of running it
+        ('C04.blt.unopenable_target_fails_the_builtin_without_running_it',
+         'idx_cmd < cl.commands@.len() && !all_openable(cl.commands@[idx_cmd as int].redirects_to@, cl.commands@[idx_cmd as int].redirects_to@.len() as int) '
+         '==> final(lg).flags == old(lg).flags && (match r { Some(c) => c.status != 0, None => false })'),
+    ],
+    loops={0: Loop(invariant=[('C04.inv.blt.targets_so_far_openable', 'lg.flags == old(lg).flags && idx_cmd < cl.commands@.len() && *cmd == cl.commands@[idx_cmd as int] && all_openable(cmd.redirects_to@, __I as int)')])},
+    )
 in_sub = Fn('src/core.rs', 'try_run_builtin_in_subprocess', ret='r',
     add_params='Tracked(lg): Tracked<&mut BuiltinLog>', ghost_args={'try_run_builtin': 'Tracked(lg)'},
     requires=[('C05.pre.blt.stage_has_a_word2', 'idx_cmd < usize::MAX && forall|i: int| 0 <= i < cl.commands@.len() ==> (#[trigger] cl.commands@[i]).tokens@.len() > 0')],
     ensures=[('C02+C11.blt.subprocess_builtin_same_rule',
               'final(lg).flags == old(lg).flags || final(lg).flags == old(lg).flags.push(' + LAST + ')')])
 
-UNIT = Unit('U-BLT', TEMPLATE, fns=[try_run_builtin, in_sub],
+UNIT = Unit('U-BLT', TEMPLATE, fns=[try_run_builtin, in_sub, Fn('src/types.rs', 'error', impl='CommandResult', ret='r', ensures=[('C04.cr.error_status', 'r.status == 1')])],
             types=[TypeItem('src/types.rs', 'struct', 'Command'), TypeItem('src/types.rs', 'struct', 'CommandLine'), TypeItem('src/types.rs', 'struct', 'CommandResult')],
-            props=('C02', 'C11', 'C05'))
+            props=('C02', 'C11', 'C04', 'C05'))
 TRUSTED = common.TRUSTED_STR + [
     'the builtin bodies are external here: only the capture flag they are entered with is recorded',
     'that a builtin given capture=false writes to its stdout descriptor (the pipe to the next stage) is U-BFD plus kernel behaviour',
